@@ -73,10 +73,12 @@ type Overlap struct {
 // Sim owns every scheduling decision of one epoch. Exactly one task runs at
 // any instant; the others are parked on their batons.
 type Sim struct {
-	tasks []*Task
-	cur   *Task
-	ctl   *Task // pseudo task for code run by the controller itself
-	cb    baton
+	ClockBase int64 // logical time at the start of the pass (ns)
+	clockOff  int64 // sum of the jumps so far
+	tasks     []*Task
+	cur       *Task
+	ctl       *Task // pseudo task for code run by the controller itself
+	cb        baton
 
 	Steps        uint64
 	Switches     uint64
@@ -117,6 +119,33 @@ func NewSim(budget uint64, sites int) *Sim {
 	s.armTask(s.ctl)
 	return s
 }
+
+// Clock is the only clock the library reads (VerifClock): a function of the
+// statements executed so far in this pass and of the planned jumps.
+//
+//go:norace
+func (s *Sim) Clock() int64 {
+	v := s.ClockBase + s.clockOff + int64(s.Steps)*1000
+	if v > procClock {
+		procClock = v
+	}
+	return v
+}
+
+// procClock is the latest logical time the library has been told in this
+// process: every pass continues from it, so that the clock never runs
+// backwards (package time promises monotonic readings).
+var procClock int64 = 1_700_000_000_000_000_000
+
+// ClockNow is the logical time at which the next pass starts.
+//
+//go:norace
+func ClockNow() int64 { return procClock + 1000 }
+
+// AdvanceClock moves the logical clock forward.
+//
+//go:norace
+func (s *Sim) AdvanceClock(ns int64) { s.clockOff += ns }
 
 // Close releases the OS pipes.
 func (s *Sim) Close() {
